@@ -2,6 +2,7 @@
 From Coq Require Import ZArith List Bool Lia Arith.
 From Herc Require Import Fork.Model.
 Import ListNotations.
+Local Open Scope nat_scope.
 
 Section GenericProofs.
   Variables (Pv Sh Op Rs : Type).
@@ -17,22 +18,22 @@ Section GenericProofs.
 
   Lemma upd_length : forall i x l, length (upd i x l) = length l.
   Proof.
-    intros i x l; revert i; induction l as [|h t IH]; intros i; cbn [Model.upd]; [reflexivity|].
-    destruct i; cbn [length]; [reflexivity|]. now rewrite IH.
+    intros i x l; revert i; induction l as [|h t IH]; intros [|i]; cbn; try reflexivity.
+    now rewrite IH.
   Qed.
 
   Lemma upd_other : forall i j x l, i <> j -> nth_error (upd i x l) j = nth_error l j.
   Proof.
-    intros i j x l; revert i j; induction l as [|h t IH]; intros i j Hij; cbn [Model.upd]; [reflexivity|].
-    destruct i, j; cbn [nth_error]; try reflexivity; [congruence|].
+    intros i j x l; revert i j; induction l as [|h t IH]; intros [|i] [|j] Hij; cbn; try reflexivity;
+      [congruence|].
     apply IH; congruence.
   Qed.
 
   Lemma upd_same : forall i x l p, nth_error l i = Some p -> nth_error (upd i x l) i = Some x.
   Proof.
-    intros i x l; revert i; induction l as [|h t IH]; intros i p H; cbn [Model.upd].
-    - destruct i; discriminate.
-    - destruct i; cbn [nth_error] in *; [reflexivity|]. eapply IH; eassumption.
+    intros i x l; revert i; induction l as [|h t IH]; intros [|i] p H; cbn in *; try discriminate;
+      [reflexivity|].
+    eapply IH; eassumption.
   Qed.
 
   (* ---- one step ---- *)
